@@ -6,6 +6,7 @@ use std::sync::{Arc, Mutex};
 use bytes::Bytes;
 use itertools::Itertools;
 use moka::future::Cache;
+use risinglight_proto::rowset::block_checksum::ChecksumType;
 use tokio::fs::{OpenOptions, read};
 
 use super::super::{Block, BlockCacheKey, Column, ColumnIndex, ColumnSeekPosition, IOBackend};
@@ -33,6 +34,7 @@ impl DiskRowset {
         block_cache: Cache<BlockCacheKey, Block>,
         rowset_id: u32,
         io_backend: IOBackend,
+        checksum_type: ChecksumType,
     ) -> StorageResult<Self> {
         let mut columns = vec![];
 
@@ -51,7 +53,7 @@ impl DiskRowset {
                 }
             };
 
-            let column_index = ColumnIndex::from_bytes(&index_content)?;
+            let column_index = ColumnIndex::from_bytes(&index_content, checksum_type)?;
 
             let path_of_data_column = path_of_data_column(&directory, column_info);
 
@@ -84,6 +86,7 @@ impl DiskRowset {
                 column_file,
                 block_cache.clone(),
                 BlockCacheKey::default().rowset(rowset_id).column(id as u32),
+                checksum_type,
             );
             columns.push(column);
         }
@@ -223,6 +226,7 @@ pub mod tests {
             Cache::new(2333),
             0,
             backend,
+            ChecksumType::Crc32,
         )
         .await
         .unwrap()
@@ -262,6 +266,7 @@ pub mod tests {
             Cache::new(2333),
             0,
             backend,
+            ChecksumType::Crc32,
         )
         .await
         .unwrap()
@@ -301,6 +306,7 @@ pub mod tests {
             Cache::new(2333),
             0,
             backend,
+            ChecksumType::Crc32,
         )
         .await
         .unwrap()
@@ -350,6 +356,7 @@ pub mod tests {
             Cache::new(2333),
             0,
             backend,
+            ChecksumType::None,
         )
         .await
         .unwrap()
